@@ -2,8 +2,9 @@ import GscribModel.Gen.XformSrc
 import GscribModel.Model.Transform
 /-! # The transform model is the translated `Transform` / `CoordinateTransformer` source
 
-`Gen/XformSrc.lean` is *generated* on every run from the source text of `gscrib/geometry/transform.py` and
-`gscrib/geometry/transformer.py` (`tools/gen_xform.py`): one Lean function per method, statement by statement, over
+`Gen/XformSrc.lean` is *generated* on every run from the source text of `gscrib/geometry/transform.py`,
+`gscrib/geometry/transformer.py` and the two transform context managers of `gscrib/gcode_core.py` (`tools/gen_xform.py`): one
+Lean function per method (an enter / exit pair per context manager), statement by statement, over
 structures with one field per `__slots__` entry.  The theorems below prove that the hand-written model of C13 / C04
 (`Model/Transform.lean`: `Xf` = `Transform`, `Tr` = `CoordinateTransformer`) *is* that translation, for every state and
 every argument:
@@ -19,7 +20,10 @@ What this pins to the source: the pivot conjugation `to_pivot @ m @ from_pivot`,
 current matrix, the inverse recomputed from the new matrix, the 4×4 shape test before anything is assigned, the
 name test / strip of `save_state` / `restore_state`, `delete_state` not stripping, the error classes and their order,
 what `_copy_state` / `_revert_state` carry, the argument checks of `scale` / `rotate` / `reflect` / `mirror` (count and zero
-test, `Axis(axis)`, zero normal, `Plane(plane)` and the `NORMALS` table) happening before anything is chained.  The
+test, `Axis(axis)`, zero normal, `Plane(plane)` and the `NORMALS` table) happening before anything is chained; for
+`with g.current_transform()` / `with g.named_transform(name)`: the frame is `_copy_state()` taken *before* the named state is
+installed, it is what `_revert_state` gets in the `finally` block, and the unnamed save stack is not used as scratch space
+(`XformTie_current_transform`, `XformTie_named_transform`, `XformTie_context_restores`, tied to `Core.step`).  The
 numerics of `reflect` (Householder matrix) and `rotate` (scipy's block, a parameter) are named primitives.  (That a saved state is a *copy* is enforced by the translator, which
 refuses a store of a non-fresh object; see its header.) -/
 open GscribModel.Transform GscribModel.XformPrelude GscribModel.Gen.XformSrc
@@ -285,6 +289,89 @@ theorem XformTie_apply_transform (t : Tr) (p : Pt) :
 theorem XformTie_reverse_transform (t : Tr) (p : Pt) :
     CoordinateTransformer.reverse_transform (absT t) p = Pt.ofV3 (t.reverseTransform p) := rfl
 
+/-! ## class `GCodeCore`: the transform context managers
+
+`with g.current_transform():` / `with g.named_transform(name):` are `@contextmanager` generators of `gcode_core.py`,
+translated as an enter / exit pair over the translated `CoordinateTransformer` (`…_enter`: the statements before the
+`yield`, returning the transformer and the generator's local `state`; `…_exit`: the `finally` block).  The model has them
+as the steps `enterCurrent` / `enterNamed name` / `exit raised` of `Core.step`, with the locals of the generators that
+are suspended at their `yield` on `Core.ctx` (innermost first). -/
+namespace GscribModel.XformTie
+
+/-- the tuple `_copy_state()` returns, for a model frame -/
+def absF (f : Frame) : Transform × List Transform := (absX f.cur, absL f.stack)
+
+/-- `r` — what a translated `…_enter` returned for the transformer of `c` — is the model's step `s` out of `c`:
+    * no exception: the model pushed one frame `f` on its open blocks and nothing else of them changed; the generator's
+      local `state` is that frame and the transformer handed to the body is the one of the model's new state;
+    * exception `e`: the translated code raises the same class, **the model state is unchanged** (no block entered) and so is
+      the translated transformer. -/
+def EnterAgrees (c : Core) (s : Core × List Stmt × Option Err)
+    (r : CoordinateTransformer × Except Err (Transform × List Transform)) : Prop :=
+  match s.2.2 with
+  | none => ∃ f, s.1.ctx = f :: c.ctx ∧ r = (absT s.1.tr, .ok (absF f))
+  | some e => s.1 = c ∧ r = (absT c.tr, .error e)
+
+/-- `leave` — a translated `…_exit` on the transformer of `c`, as a function of the generator's local `state` — is the
+    model's step `s = c.step (.exit raised)`: with the innermost open block's frame it cannot raise, its result is the
+    transformer of the model's new state, and the model has dropped exactly that frame. -/
+def ExitAgrees (c : Core) (s : Core × List Stmt × Option Err)
+    (leave : Transform × List Transform → CoordinateTransformer × Option Err) : Prop :=
+  ∀ f rest, c.ctx = f :: rest → leave (absF f) = (absT s.1.tr, none) ∧ s.1.ctx = rest ∧ s.2.2 = none
+
+theorem exit_agrees (c : Core) (raised : Bool) :
+    ExitAgrees c (c.step (.exit raised)) (fun st => (CoordinateTransformer._revert_state (absT c.tr) st)) := by
+  intro f rest h
+  refine ⟨?_, ?_, ?_⟩ <;> simp only [Core.step, h] <;> rfl
+
+end GscribModel.XformTie
+
+/-- `with g.current_transform():` — entering is the model's `enterCurrent` (the frame `_copy_state()` returns is pushed,
+    the transformer is untouched, nothing can raise); leaving — normally or by an exception, whatever the body did to the
+    transformer — is the model's `exit` on the innermost frame. -/
+theorem XformTie_current_transform (c : Core) :
+    EnterAgrees c (c.step .enterCurrent) (GCodeCore.current_transform_enter (absT c.tr))
+    ∧ ∀ raised, ExitAgrees c (c.step (.exit raised)) (GCodeCore.current_transform_exit (absT c.tr)) :=
+  ⟨⟨⟨c.tr.cur, c.tr.stack⟩, rfl, rfl⟩, fun raised => exit_agrees c raised⟩
+
+/-- `with g.named_transform(name):` — entering is the model's `enterNamed name`: the frame is copied **before**
+    `restore_state(name)` installs (a copy of) the named state; an unknown name (`KeyError`) — or a blank one on an empty
+    stack (`IndexError`) — raises out of `__enter__` with transformer and open blocks as they were.  Leaving is the model's
+    `exit` on the innermost frame, as for `current_transform`. -/
+theorem XformTie_named_transform (c : Core) (name : String) :
+    EnterAgrees c (c.step (.enterNamed name)) (GCodeCore.named_transform_enter (absT c.tr) name)
+    ∧ ∀ raised, ExitAgrees c (c.step (.exit raised)) (GCodeCore.named_transform_exit (absT c.tr) name) := by
+  refine ⟨?_, fun raised => exit_agrees c raised⟩
+  have h := XformTie_restore_state c.tr (some name)
+  simp only [EnterAgrees, GCodeCore.named_transform_enter, Core.step, h]
+  cases c.tr.restoreState (some name) with
+  | error e => exact ⟨rfl, rfl⟩
+  | ok t => exact ⟨⟨c.tr.cur, c.tr.stack⟩, rfl, rfl⟩
+
+/-- **What a `with` block puts back** (`_revert_state` restores whatever `_copy_state` copied): enter either context on a
+    transformer `t`; let the body do anything at all to the transformer (`body` is *any* transformer state: transforms,
+    pivots, saves, restores that pop the stack empty, named states saved or deleted …); leave, normally or not.  The current
+    transform and the whole unnamed stack are those of `t` on entry (for `named_transform` too: of `t` *before* the named
+    state was installed); the **named states are the body's** — `_copy_state` does not copy the dict, so a name saved,
+    overwritten or deleted inside the block stays so after it.  Leaving cannot raise. -/
+theorem XformTie_context_restores (t body : Tr) (name : String) (st : Transform × List Transform) :
+    ((GCodeCore.current_transform_enter (absT t)).2 = .ok st →
+      GCodeCore.current_transform_exit (absT body) st = (absT { body with cur := t.cur, stack := t.stack }, none))
+    ∧ ((GCodeCore.named_transform_enter (absT t) name).2 = .ok st →
+      GCodeCore.named_transform_exit (absT body) name st = (absT { body with cur := t.cur, stack := t.stack }, none)) := by
+  refine ⟨?_, ?_⟩
+  · intro h
+    cases h
+    rfl
+  · intro h
+    simp only [GCodeCore.named_transform_enter, XformTie_restore_state t (some name)] at h
+    cases hr : t.restoreState (some name) with
+    | error e => simp [hr, lift] at h
+    | ok t' =>
+      simp only [hr, lift, Except.ok.injEq] at h
+      subst h
+      rfl
+
 /-! ## the translated functions evaluated (kernel evaluation of the generated definitions) -/
 namespace GscribModel.XformTie
 /-- `CoordinateTransformer()` -/
@@ -325,3 +412,45 @@ example : CoordinateTransformer.apply_transform (CoordinateTransformer.mirror ct
     ∧ CoordinateTransformer.reflect ct1 [0, 0, 0] = (ct1, some .valueError)
     ∧ CoordinateTransformer.apply_transform (CoordinateTransformer.rotate ct1 90 "z" ⟨0, -1, 0, 1, 0, 0, 0, 0, 1, 0, 0, 0⟩).1 ⟨some 1, none, some 1⟩
         = ⟨some (-3), some 2, some 8⟩ := by decide +kernel
+namespace GscribModel.XformTie
+/-- what `__enter__` returned / raised, as comparable values -/
+def okOf {α : Type} : Except Err α → Option α | .ok a => some a | .error _ => none
+def errOf {α : Type} : Except Err α → Option Err | .ok _ => none | .error e => some e
+/-- `with g.named_transform("k "):` on `ct1`, then in the body `translate(5, 5, 5); save_state(); restore_state()` -/
+def nEnter := GCodeCore.named_transform_enter ct1 "k "
+def nBody : CoordinateTransformer :=
+  let b1 := (CoordinateTransformer.translate nEnter.1 5 5 5).1
+  let b2 := (CoordinateTransformer.save_state b1 none).1
+  (CoordinateTransformer.restore_state b2 none).1
+/-- `with g.current_transform():` on `ct1`, body `scale(3); save_state()`, then a second `with g.current_transform():` with
+    body `restore_state(); save_state("in")` -/
+def cOuter := GCodeCore.current_transform_enter ct1
+def cBody1 : CoordinateTransformer := (CoordinateTransformer.save_state (CoordinateTransformer.scale cOuter.1 [3]).1 none).1
+def cInner := GCodeCore.current_transform_enter cBody1
+def cBody2 : CoordinateTransformer := (CoordinateTransformer.save_state (CoordinateTransformer.restore_state cInner.1 none).1 (some "in")).1
+def cLeft1 : CoordinateTransformer := (GCodeCore.current_transform_exit cBody2 (CoordinateTransformer._copy_state cBody1)).1
+def cLeft0 : CoordinateTransformer := (GCodeCore.current_transform_exit cLeft1 (CoordinateTransformer._copy_state ct1)).1
+end GscribModel.XformTie
+
+/-- `with g.named_transform("k "):` on `ct1` — inside the block the state saved as `" k "` (before the scaling) is in effect;
+    the body translates, pushes a state, pops it, and a second `restore_state()` finds the stack empty: `IndexError`, the block
+    is left by that exception — afterwards the transformer *is* `ct1`.  An unknown name raises `KeyError` out of `__enter__`
+    and leaves `ct1` as it is; a blank name on the empty stack raises `IndexError`. -/
+example :
+    okOf nEnter.2 = some (CoordinateTransformer._copy_state ct1)
+    ∧ CoordinateTransformer.apply_transform nEnter.1 ⟨some 1, none, some 1⟩ = ⟨some 2, some 2, some 4⟩
+    ∧ CoordinateTransformer.apply_transform nBody ⟨some 1, none, some 1⟩ = ⟨some 7, some 7, some 9⟩
+    ∧ CoordinateTransformer.restore_state nBody none = (nBody, some .indexError)
+    ∧ GCodeCore.named_transform_exit nBody "k " (CoordinateTransformer._copy_state ct1) = (ct1, none)
+    ∧ (GCodeCore.named_transform_enter ct1 "zz").1 = ct1 ∧ errOf (GCodeCore.named_transform_enter ct1 "zz").2 = some .keyError
+    ∧ (GCodeCore.named_transform_enter ct1 "  ").1 = ct1 ∧ errOf (GCodeCore.named_transform_enter ct1 "  ").2 = some .indexError := by
+  decide +kernel
+/-- `with g.current_transform():` nested in itself: each block puts back its own frame (the inner one the scaled transform
+    and the one pushed state, the outer one `ct1` with its empty stack); the name saved in the inner block is still there. -/
+example :
+    cOuter.1 = ct1 ∧ okOf cOuter.2 = some (CoordinateTransformer._copy_state ct1)
+    ∧ cInner.1 = cBody1 ∧ okOf cInner.2 = some (CoordinateTransformer._copy_state cBody1)
+    ∧ cBody2._transforms_stack = [] ∧ cLeft1._transforms_stack = cBody1._transforms_stack
+    ∧ cLeft1._current_transform = cBody1._current_transform
+    ∧ cLeft0._current_transform = ct1._current_transform ∧ cLeft0._transforms_stack = []
+    ∧ cLeft0._named_transforms.map (·.1) = ["k", "in"] ∧ cLeft0 ≠ ct1 := by decide +kernel
